@@ -122,7 +122,7 @@ PROPS['C10'] = A(level='model_checking', engine='sched', harnesses=SCHED('harnes
     assumptions=TRUST + ['interleaving semantics; ordering defects are detected as missing happens-before edges (vector clocks, TSan)'])
 
 PROPS['C11'] = A(level='model_checking', engine='sched', harnesses=[A(src='harness/c11_qs_seq.cpp', san='asan')] + SCHED('harness/c11_qs_mt.cpp'), budget=A(quick=170, thorough=1700),
-    bounds=A(quick='(A) whole-operation BFS: 1-3 agents, up to 3 barriers per agent, every history of online/offline/quiescent_state/await_barrier/run to depth 24/15/14/13/12 (1 agent / 2 agents x 2 nodes / 2x3 / 3x1 / 3x2), coverage-set safety oracle, callback poisons its node, bounded liveness (5 fair rounds) from every state; (B) threads: 5 scripts (registrar vs worker, quiescent_barrier vs worker, late join/early leave, two registrars, deferred period restarted), every atomic access and mutex operation a scheduling point, all schedules with <=2 preemptions, interval-semantics safety oracle, vector-clock happens-before oracle, termination; same schedules under ThreadSanitizer',
+    bounds=A(quick='(A) whole-operation BFS: 1-3 agents, up to 3 barriers per agent, every history of online/offline/quiescent_state/await_barrier/run to depth 24/15/14/13/12 (1 agent / 2 agents x 2 nodes / 2x3 / 3x1 / 3x2), coverage-set safety oracle, callback poisons its node, bounded liveness (5 fair rounds) from every state; (B) threads: 8 scripts (registrar vs worker, quiescent_barrier vs worker, late join/early leave, two registrars, deferred period restarted, worker stays online for callback / for barrier, two concurrent await_barrier calls with an older barrier pending [<=3 preemptions]), every atomic access and mutex operation a scheduling point, all schedules with <=2 preemptions, interval-semantics safety oracle, vector-clock happens-before oracle, termination; same schedules under ThreadSanitizer',
              thorough='(A) depths 28/17/16/15/14; (B) <=3 preemptions, three agents, two barriers of one agent, barrier vs barrier'),
     technique='explicit-state BFS over operation histories plus stateless preemption-bounded schedule enumeration of the real qs.hpp under a serialising scheduler with vector-clock happens-before and ThreadSanitizer oracles',
     assumptions=TRUST + ['interleaving semantics; ordering defects are detected as missing happens-before edges'])
